@@ -61,6 +61,29 @@ def gen_macro_dag(rng):
     return roots + blocks
 
 
+def gen_macro_digraph(rng):
+    """an arbitrary PASTE graph over 2-6 macros - chains leading into cycles, cycles, diamonds,
+    unused parts - in a random declaration order, used from 1-3 places"""
+    k = rng.randint(2, 6)
+    roots = [N("JSIGHT 0.3")]
+    macros = []
+    for i in range(k):
+        body = []
+        for _ in range(rng.randint(1, 3)):
+            r = rng.random()
+            if r < 0.55:
+                body.append(N("PASTE @g%d" % rng.randrange(k)))
+            elif r < 0.7:
+                body.append(N("200", [N("PASTE @g%d" % rng.randrange(k))], explicit=True))
+            else:
+                body.append(N("%d any" % rng.choice([200, 201, 400, 404, 500])))
+        macros.append(N("MACRO @g%d" % i, body, explicit=True))
+    uses = [N(rng.choice(["GET", "POST", "PUT"]) + " /q%d" % j, [N("PASTE @g%d" % rng.randrange(k))]) for j in range(rng.randint(1, 3))]
+    blocks = macros + uses
+    rng.shuffle(blocks)
+    return roots + blocks
+
+
 def classify(roots, what):
     if meta.has_cycle_reachable(roots):
         g = meta.macro_graph(roots)
@@ -86,6 +109,11 @@ def run(tier, out, model_ok, proof):
         docs.append(treecorr.gen_structured(rng, with_macros=True))
     for i in range(1500 if big else 150):
         docs.append(gen_macro_dag(rng))
+    for i in range(2500 if big else 300):
+        docs.append(gen_macro_digraph(rng))
+    # a chain declared BEFORE the cycle it leads into
+    docs.append([N("JSIGHT 0.3"), N("MACRO @t", [N("PASTE @c1")], explicit=True), N("MACRO @c1", [N("PASTE @c2")], explicit=True),
+                 N("MACRO @c2", [N("PASTE @c1")], explicit=True), N("GET /cats", [N("200 any"), N("PASTE @t")])])
     lay = layout.Layout(random.Random(0))
     cases, pairs = [], []
     for i, roots in enumerate(docs):
@@ -148,7 +176,7 @@ def run(tier, out, model_ok, proof):
     out.coverage.update({
         "evaluations": len(cases),
         "distinct_nontrivial": sum(1 for _, r, _ in pairs if any(n.text.startswith("PASTE") for n in treecorr_flat(r))),
-        "rule": "structured valid documents with sibling runs abstracted into (nested, explicit-body) MACROs + hand-picked shapes (macro with ENUM/TYPE used 0/1/2 times, use before definition, undefined macro, cycles of length 1-3, cyclic but unused, a macro pasted twice by another, diamonds) + random acyclic macro graphs with reuse; each macro form is built and compared with its inlined form (reference inliner lib/meta.py) and its expanded forest / macro table / enum registrations are compared with the extracted Coq model; non-trivial = contains a PASTE",
+        "rule": "structured valid documents with sibling runs abstracted into (nested, explicit-body) MACROs + hand-picked shapes (macro with ENUM/TYPE used 0/1/2 times, use before definition, undefined macro, cycles of length 1-3, cyclic but unused, a macro pasted twice by another, diamonds) + random acyclic macro graphs with reuse + arbitrary PASTE graphs (chains into cycles, any declaration order); each macro form is built and compared with its inlined form (reference inliner lib/meta.py) and its expanded forest / macro table / enum registrations are compared with the extracted Coq model; non-trivial = contains a PASTE",
         "samples": [bytes.fromhex(c["files"]["root.jst"]).decode("latin1")[:300] for c in cases[:2]],
         "traces_validated_against_impl": (len([c for c in cases if c["id"].startswith("m")]) - len(mism)) if model_ok else 0,
         "accepted_pairs": acc, "rejected": rej,
